@@ -107,3 +107,188 @@ def add_flops(rng, c, n_flops=(1, 2), bb=None, connect_all=True, inst="ff"):
         elif not c.is_output(q):
             c.set_output(q)
     return c
+
+
+def inplace_edit(rng, c, exclude=()):
+    """one in-place edit of a (lint-clean) circuit object that keeps it lint-clean and keeps the NUMBER of nodes and
+    edges (and the registry keys) — the kind of change a memo keyed on a coarse fingerprint of the object would not
+    notice: a gate type change, a constant flip, one operand moved to another driver, an output mark toggled, a node
+    renamed.  Returns the edit as a dict (replayable with `apply_edit`), or None when nothing applicable was found."""
+    g = c.graph
+    nodes = list(g.nodes)
+    multi = [n for n in nodes if c.type(n) in MULTI]
+    unary = [n for n in nodes if c.type(n) in ("buf", "not") and not any(c.type(p) == "bb_output" for p in g.predecessors(n))]
+    consts = [n for n in nodes if c.type(n) in ("0", "1")]
+    kinds = ["set_type"] * 3 + ["rewire"] * 3 + ["output"] * 2 + ["relabel"] + ["add_edge"] * 2 + ["add_sub"] * 2 + ["fill"]
+    kinds = [k for k in kinds if k not in exclude]
+    rng.shuffle(kinds)
+    for kind in kinds:
+        if kind == "set_type":
+            pool = multi + unary + consts
+            if not pool:
+                continue
+            n = rng.choice(pool)
+            t = c.type(n)
+            if t in MULTI:
+                nt = rng.choice([x for x in MULTI if x != t])
+            elif t in ("buf", "not"):
+                nt = "not" if t == "buf" else "buf"
+            else:
+                nt = "1" if t == "0" else "0"
+            return apply_edit(c, {"op": "set_type", "n": n, "t": nt})
+        if kind == "rewire":
+            cand = [n for n in multi + unary if g.in_degree(n) >= 1]
+            rng.shuffle(cand)
+            for n in cand:
+                fi = sorted(g.predecessors(n))
+                old = rng.choice(fi)
+                banned = set(fi) | {n} | set(__import__("networkx").descendants(g, n))
+                new = [m for m in nodes if m not in banned and c.type(m) not in ("bb_input", "bb_output")]
+                if not new:
+                    continue
+                m = rng.choice(sorted(new))
+                return apply_edit(c, {"op": "rewire", "n": n, "old": old, "new": m})
+            continue
+        if kind == "add_sub":
+            # an independent island with its own input and output, merged by add_subcircuit(strip_io=False): the graph
+            # grows without add()/connect() being called
+            if any(n.startswith("zz_isl") for n in nodes):
+                continue
+            return apply_edit(c, {"op": "add_sub", "t": rng.choice(["not", "buf"])})
+        if kind == "fill":
+            # a buffer block spliced behind a gate by add_blackbox + fill_blackbox
+            if not multi or any(n.startswith("zz_fw") for n in nodes):
+                continue
+            loads = [n for n in multi if g.out_degree(n) >= 1]
+            if not loads:
+                continue
+            n = rng.choice(sorted(loads))
+            return apply_edit(c, {"op": "fill", "n": n, "load": rng.choice(sorted(g.successors(n)))})
+        if kind == "add_edge":
+            # one more operand on a multi-input gate: the node count stays, the edge count grows
+            cand = list(multi)
+            rng.shuffle(cand)
+            for n in cand:
+                banned = set(g.predecessors(n)) | {n} | set(__import__("networkx").descendants(g, n))
+                new = [m for m in nodes if m not in banned and c.type(m) not in ("bb_input", "bb_output")]
+                if new:
+                    return apply_edit(c, {"op": "add_edge", "n": n, "new": rng.choice(sorted(new))})
+            continue
+        if kind == "output":
+            cand = [n for n in nodes if c.type(n) in GATES + ["input", "0", "1"]]
+            outs = [n for n in cand if c.is_output(n)]
+            non = [n for n in cand if not c.is_output(n)]
+            if non and (len(outs) < 2 or rng.random() < 0.6):
+                n = rng.choice(non)
+                return apply_edit(c, {"op": "set_output", "n": n, "v": True})
+            if len(outs) >= 2:
+                n = rng.choice(outs)
+                return apply_edit(c, {"op": "set_output", "n": n, "v": False})
+            continue
+        if kind == "relabel":
+            cand = [n for n in nodes if "." not in n]
+            if not cand:
+                continue
+            n = rng.choice(cand)
+            new = n + "_rn"
+            if new in g:
+                continue
+            return apply_edit(c, {"op": "relabel", "n": n, "new": new})
+    return None
+
+
+def apply_edit(c, op):
+    """perform one edit produced by `inplace_edit` on the object `c` (through the public API); returns `op`"""
+    k = op["op"]
+    if k == "set_type":
+        c.set_type(op["n"], op["t"])
+    elif k == "rewire":
+        c.disconnect(op["old"], op["n"])
+        c.connect(op["new"], op["n"])
+    elif k == "add_edge":
+        c.connect(op["new"], op["n"])
+    elif k == "add_sub":
+        isl = cg.Circuit("isl")
+        isl.add("i", "input")
+        isl.add("o", op["t"], fanin="i", output=True)
+        c.add_subcircuit(isl, "zz_isl", strip_io=False)
+    elif k == "fill":
+        # n -> load becomes n -> [block: buf] -> zz_fw -> load
+        n, load = op["n"], op["load"]
+        w = c.add("zz_fw", "buf")
+        c.disconnect(n, load)
+        c.connect(w, load)
+        c.add_blackbox(cg.BlackBox("zb", ["i"], ["o"]), "zz_fu", {"i": n, "o": w})
+        blk = cg.Circuit("blk")
+        blk.add("i", "input")
+        blk.add("o", "buf", fanin="i", output=True)
+        c.fill_blackbox("zz_fu", blk)
+    elif k == "set_output":
+        c.set_output(op["n"], op["v"])
+    elif k == "relabel":
+        c.relabel({op["n"]: op["new"]})
+    else:
+        raise ValueError(k)
+    return op
+
+
+def poison_generators(rng, widths=(1, 2, 3, 4, 5)):
+    """call history for the logic generators: obtain every block once and edit the returned object in place, the way a
+    caller who owns it may (change a gate, add an undriven buffer, rename a port).  If a generator hands out a shared or
+    memoised object, every later call - direct or through adder/popcount/sensitivity_transform - sees the damage."""
+    blocks = [cg.logic.half_adder(), cg.logic.full_adder()]
+    for w in widths:
+        blocks += [cg.logic.adder(w), cg.logic.adder(w, True, True), cg.logic.adder(w, False, True), cg.logic.mux(w),
+                   cg.logic.popcount(w)]
+    for b in blocks:
+        gates = [g for g in b.graph.nodes if b.type(g) in ("and", "or", "xor")]
+        if gates:
+            g = rng.choice(sorted(gates))
+            b.set_type(g, {"and": "nor", "or": "nand", "xor": "xnor"}[b.type(g)])
+        b.add("zz_en", "buf", uid=True)
+        outs = sorted(b.outputs())
+        if outs:
+            b.set_output(outs[0], False)
+    return len(blocks)
+
+
+def splice_block(rng, c, blk, inst="zz_u"):
+    """composition history: a one-input one-output block `blk` (typically the result of an earlier transform call, so it
+    carries whatever that call left on the object) is spliced into a copy of `c` behind a random gate by add_blackbox +
+    fill_blackbox (a merge that does not go through connect()).  Returns the new parent, or None."""
+    gates = [n for n in c.graph.nodes if c.type(n) in MULTI]
+    ins, outs = sorted(blk.inputs()), sorted(blk.outputs())
+    if not gates or len(ins) != 1 or len(outs) != 1:
+        return None
+    p = c.copy()
+    gname = rng.choice(sorted(gates))
+    w = p.add("zz_w", "buf", uid=True, output=True)
+    p.add_blackbox(cg.BlackBox("zb", ins, outs), inst, {ins[0]: gname, outs[0]: w})
+    p.fill_blackbox(inst, blk)
+    return p
+
+
+def poison_result(rng, r):
+    """the caller owns what a library call returned and edits it in place (retypes gates, toggles outputs, deletes a node,
+    adds one): a later identical call must not be affected"""
+    cs = [r] if isinstance(r, cg.Circuit) else [x for x in (r if isinstance(r, (tuple, list)) else []) if isinstance(x, cg.Circuit)]
+    for c in cs:
+        g = c.graph
+        for n in list(g.nodes):
+            t = g.nodes[n].get("type")
+            if t in MULTI and rng.random() < 0.6:
+                c.set_type(n, rng.choice([x for x in MULTI if x != t]))
+            elif t in ("buf", "not") and rng.random() < 0.5:
+                c.set_type(n, "not" if t == "buf" else "buf")
+            elif t in ("0", "1"):
+                c.set_type(n, "1" if t == "0" else "0")
+            if t in GATES + ["input"] and rng.random() < 0.3:
+                c.set_output(n, not c.is_output(n))
+        plain = [n for n in g.nodes if g.nodes[n].get("type") in GATES]
+        if plain and rng.random() < 0.7:
+            c.remove(rng.choice(sorted(plain)))
+        try:
+            c.add("zz_extra", "input", uid=True)
+        except Exception:  # noqa: BLE001
+            pass
+    return len(cs)
